@@ -4,6 +4,7 @@ import UtilModel.Model.Sem
 import UtilModel.Model.Size
 import UtilModel.Model.UU
 import UtilModel.Model.Hist
+import UtilModel.Model.TestKit
 /-!
 # Line-protocol driver: one operation per input line, one result line per operation.
 Byte strings are lower-case hex, `-` for the empty string. See DESIGN.md Appendix A.
@@ -107,6 +108,54 @@ def parseHOp (s : String) : Option Hist.HOp :=
     pure (.scanTime sec nsec off)
   | ["S", "x"] => some .scanOther
   | _ => none
+
+def tkHook : String → Option TestKit.Hook
+  | "n" => some .nil | "o" => some .ok | "e" => some .err | "p" => some .panic | _ => none
+
+def optBytes (s : String) : Option (Option Bytes) :=
+  if s == "nil" then some none else (unhex s).map some
+
+def optInt (s : String) : Option (Option Int) :=
+  if s == "_" then some none else s.toInt?.map some
+
+def tkPred (s : String) : Option TestKit.Pred :=
+  match s.splitOn ":" with
+  | ["-"] => some .none
+  | ["any"] => some .any
+  | ["eq", h] => (unhex h).map .eq
+  | ["pre", h] => (unhex h).map .pre
+  | ["suf", h] => (unhex h).map .suf
+  | ["re", c, m, _] => some (.re (c == "1") (m == "1"))
+  | _ => none
+
+def tkMBeh (s : String) : Option TestKit.MBeh :=
+  match s.splitOn ":" with
+  | ["d", d] => (optBytes d).map .data
+  | ["e", t, d] => do let t ← unhex t; let d ← optBytes d; pure (.err t d)
+  | ["p", t] => (unhex t).map .panic
+  | _ => none
+
+def tkUBeh (s : String) : Option TestKit.UBeh :=
+  match s.splitOn ":" with
+  | ["o", x] => (optInt x).map .ok
+  | ["e", t, x] => do let t ← unhex t; let x ← optInt x; pure (.err t x)
+  | ["p", t, x] => do let t ← unhex t; let x ← optInt x; pure (.panic t x)
+  | _ => none
+
+def tkCase (s : String) : Option TestKit.Case :=
+  match s.splitOn "/" with
+  | [c, b, a, p, m, u, d, v] => do
+    let c ← c.toNat?; let b ← tkHook b; let a ← tkHook a; let p ← tkPred p
+    let m ← tkMBeh m; let u ← tkUBeh u; let d ← optBytes d; let v ← v.toInt?
+    pure ⟨c, b, a, p, m, u, d, v⟩
+  | _ => none
+
+def tkHelper : String → Option TestKit.Helper
+  | "MT" => some .mt | "UT" => some .ut | "MB" => some .mb | "UB" => some .ub | "MJ" => some .mj | "UJ" => some .uj
+  | _ => none
+
+def tkType : String → Option TestKit.TypeKind
+  | "tv" => some .tv | "tp" => some .tp | "ptp" => some .ptp | "tn" => some .tn | _ => none
 
 def initRecv : String → Option Hist.Recv
   | "date" => some (.date Date.zero) | "roman" => some (.roman 0) | "sem" => some (.sem Sem.Ver.zero)
@@ -252,6 +301,11 @@ def step (line : String) : String :=
     (do let a ← a.toNat?; let b ← b.toNat?
         let i := UU.randomID (BitVec.ofNat 64 a) (BitVec.ofNat 64 b)
         pure s!"{i.hi.toNat} {i.lo.toNat}").getD bad
+  | "test.run" :: h :: tk :: cases =>
+    (do let h ← tkHelper h; let tk ← tkType tk
+        let cs ← cases.mapM tkCase
+        let (fn, reps) := TestKit.run h tk cs
+        pure ("=" ++ (if fn then "F" else "") ++ String.ofList (reps.map fun (r : Bool) => if r then 'r' else '-'))).getD bad
   | "hist" :: ty :: ops =>
     (do let r ← initRecv ty
         let ops ← ops.mapM parseHOp
